@@ -27,9 +27,20 @@ pub enum ElemTy {
     Fat,
     /// an element whose comparison itself calls the library (re-entrancy on the same thread)
     Reent,
+    /// a zero-sized element type (all elements are equal)
+    Zst,
+    /// the remaining Option<integer> types that implement MaybeNan (None = i64::MIN)
+    OptI8,
+    OptI16,
+    OptI64,
+    OptI128,
+    OptU16,
+    OptU32,
+    OptU64,
+    OptU128,
 }
 
-pub const ALL_ELEMS: [ElemTy; 15] = [
+pub const ALL_ELEMS: [ElemTy; 24] = [
     ElemTy::I8,
     ElemTy::I32,
     ElemTy::I64,
@@ -45,6 +56,15 @@ pub const ALL_ELEMS: [ElemTy; 15] = [
     ElemTy::Boxed,
     ElemTy::Fat,
     ElemTy::Reent,
+    ElemTy::Zst,
+    ElemTy::OptI8,
+    ElemTy::OptI16,
+    ElemTy::OptI64,
+    ElemTy::OptI128,
+    ElemTy::OptU16,
+    ElemTy::OptU32,
+    ElemTy::OptU64,
+    ElemTy::OptU128,
 ];
 
 impl ElemTy {
@@ -65,13 +85,23 @@ impl ElemTy {
             ElemTy::Boxed => "Boxed(Box<i64>)",
             ElemTy::Fat => "Fat(96 bytes)",
             ElemTy::Reent => "Reent(cmp calls the library)",
+            ElemTy::Zst => "Zst(zero-sized)",
+            ElemTy::OptI8 => "Option<i8>",
+            ElemTy::OptI16 => "Option<i16>",
+            ElemTy::OptI64 => "Option<i64>",
+            ElemTy::OptI128 => "Option<i128>",
+            ElemTy::OptU16 => "Option<u16>",
+            ElemTy::OptU32 => "Option<u32>",
+            ElemTy::OptU64 => "Option<u64>",
+            ElemTy::OptU128 => "Option<u128>",
+
         }
     }
     pub fn from_name(s: &str) -> Option<ElemTy> {
         ALL_ELEMS.iter().copied().find(|e| e.name() == s)
     }
     pub fn is_maybe_nan(self) -> bool {
-        matches!(self, ElemTy::F64 | ElemTy::F32 | ElemTy::OptI32 | ElemTy::OptU8 | ElemTy::OptN64)
+        matches!(self, ElemTy::F64 | ElemTy::F32 | ElemTy::OptI32 | ElemTy::OptU8 | ElemTy::OptN64 | ElemTy::OptI8 | ElemTy::OptI16 | ElemTy::OptI64 | ElemTy::OptI128 | ElemTy::OptU16 | ElemTy::OptU32 | ElemTy::OptU64 | ElemTy::OptU128)
     }
     pub fn is_float(self) -> bool {
         matches!(self, ElemTy::N64 | ElemTy::F64 | ElemTy::F32 | ElemTy::OptN64)
@@ -85,6 +115,14 @@ impl ElemTy {
             ElemTy::U8 | ElemTy::OptU8 => (0, u8::MAX as i128),
             ElemTy::U64 => (0, u64::MAX as i128),
             ElemTy::Keyed => (-1000, 1000),
+            ElemTy::Zst => (0, 0),
+            ElemTy::OptI8 => (i8::MIN as i128, i8::MAX as i128),
+            ElemTy::OptI16 => (i16::MIN as i128, i16::MAX as i128),
+            ElemTy::OptI64 | ElemTy::OptI128 => (-(1i128 << 62), 1i128 << 62),
+            ElemTy::OptU16 => (0, u16::MAX as i128),
+            ElemTy::OptU32 => (0, u32::MAX as i128),
+            ElemTy::OptU64 | ElemTy::OptU128 => (0, 1i128 << 62),
+
             ElemTy::Boxed | ElemTy::Fat | ElemTy::Reent => (-(1i128 << 40), 1i128 << 40),
             _ => (-(1i128 << 53), 1i128 << 53),
         }
@@ -114,7 +152,7 @@ impl ElemTy {
                 let payloads = [f32::NAN.to_bits(), (-f32::NAN).to_bits(), 0x7fc0_0001, 0x7f80_0001];
                 payloads[(variant % 4) as usize] as i64
             }
-            ElemTy::OptI32 | ElemTy::OptU8 => i64::MIN,
+            ElemTy::OptI32 | ElemTy::OptU8 | ElemTy::OptI8 | ElemTy::OptI16 | ElemTy::OptI64 | ElemTy::OptI128 | ElemTy::OptU16 | ElemTy::OptU32 | ElemTy::OptU64 | ElemTy::OptU128 => i64::MIN,
             ElemTy::OptN64 => f64::NAN.to_bits() as i64,
             _ => panic!("no missing value for {}", self.name()),
         }
@@ -123,7 +161,7 @@ impl ElemTy {
         match self {
             ElemTy::F64 | ElemTy::OptN64 => f64::from_bits(raw as u64).is_nan(),
             ElemTy::F32 => f32::from_bits(raw as u32).is_nan(),
-            ElemTy::OptI32 | ElemTy::OptU8 => raw == i64::MIN,
+            ElemTy::OptI32 | ElemTy::OptU8 | ElemTy::OptI8 | ElemTy::OptI16 | ElemTy::OptI64 | ElemTy::OptI128 | ElemTy::OptU16 | ElemTy::OptU32 | ElemTy::OptU64 | ElemTy::OptU128 => raw == i64::MIN,
             _ => false,
         }
     }
@@ -134,6 +172,7 @@ impl ElemTy {
             ElemTy::F32 => (v as f32).to_bits() as i64,
             ElemTy::U64 => (v as u64) as i64,
             ElemTy::Keyed => (v as i64) << 32,
+            ElemTy::Zst => 0,
             _ => v as i64,
         }
     }
@@ -158,7 +197,7 @@ impl ElemTy {
             ElemTy::F32 => format!("{:?}", f32::from_bits(raw as u32)),
             ElemTy::U64 => format!("{}", raw as u64),
             ElemTy::Keyed => format!("key {} tag {}", raw >> 32, raw & 0xffff_ffff),
-            ElemTy::OptI32 | ElemTy::OptU8 => {
+            ElemTy::OptI32 | ElemTy::OptU8 | ElemTy::OptI8 | ElemTy::OptI16 | ElemTy::OptI64 | ElemTy::OptI128 | ElemTy::OptU16 | ElemTy::OptU32 | ElemTy::OptU64 | ElemTy::OptU128 => {
                 if raw == i64::MIN {
                     "None".into()
                 } else {
